@@ -83,6 +83,15 @@ CORPUS = [
     # misplaced `continue`: rejected (ValueError), like a misplaced break
     {"pre": [("assign", "i0", "0"), ("if", [("(i0 == 0)", [("continue",)])], [])], "main": [("write", "i0")]},
     {"pre": [("assign", "i0", "0"), ("continue",), ("write", "i0")], "main": None},
+    # tuple assignment to declared names through temporaries: float swap, rotation of three, Fibonacci step in a for
+    # body, swaps in the main loop at body level and inside both arms of an if
+    {"pre": [("assign", "f0", "1.5"), ("assign", "f1", "2.25"), ("swap", "f0", "f1"), ("write", "f0"), ("write", "f1"),
+             ("assign", "i0", "1"), ("assign", "i1", "2"), ("assign", "i2", "3"), ("tuple", ["i0", "i1", "i2"], ["i1", "i2", "i0"]),
+             ("write", "(i0 * 100 + i1 * 10 + i2)"),
+             ("for", "k0", "3", [("tuple", ["i0", "i1"], ["i1", "(i0 + i1)"]), ("write", "i0")])],
+     "main": [("swap", "f0", "f1"), ("write", "f0"),
+              ("if", [("(i0 > i1)", [("swap", "i0", "i1")])], [("tuple", ["i1", "i2"], ["i2", "i1"])]),
+              ("write", "(i0 * 100 + i1 * 10 + i2)")]},
     # first assignment inside a loop / a branch, read afterwards (promotion)
     {"pre": [("assign", "i0", "2"), ("for", "k0", "3", [("assign", "i5", "(k0 + i0)")]), ("write", "i5"),
              ("assign", "w0", "0"), ("while", "(w0 < 2)", [("assign", "i6", "(w0 * 5)"), ("assign", "w0", "(w0 + 1)")]), ("write", "i6")],
@@ -376,6 +385,42 @@ def model_predicts_deviation(ctx, p, l):
     return not same_lines(model_lines(o[3][1], ee[1]), model_lines(o[2][1], ee[1]))
 
 
+def _kinds(body, acc):
+    for st in body or []:
+        acc.add(st[0])
+        if st[0] == "if":
+            for _, b in st[1]:
+                _kinds(b, acc)
+            _kinds(st[2], acc)
+        elif st[0] in ("while", "for"):
+            _kinds(st[-1], acc)
+    return acc
+
+
+def _has_tuple_assignment(p):
+    """a ("tuple", names, exprs) statement whose names were all assigned before it (not the declaration form)"""
+    seen = set()
+
+    def walk(body):
+        hit = False
+        for st in body or []:
+            if st[0] in ("assign", "read", "callassign"):
+                seen.add(st[1])
+            elif st[0] == "tuple":
+                if st[1] and all(n in seen for n in st[1]):
+                    hit = True
+                seen.update(st[1])
+            elif st[0] == "if":
+                for _, b in st[1]:
+                    hit = walk(b) or hit
+                hit = walk(st[2]) or hit
+            elif st[0] in ("while", "for"):
+                hit = walk(st[-1]) or hit
+        return hit
+    h1 = walk(p["pre"])
+    return walk(p["main"]) or h1
+
+
 def exec_correspondence(ctx, exe, items):
     """items: (src_body, program, annotator, pre, main, impl_result, loops, pair_result).
     Runs both sides of the statement model (Lang.StmtExec: Python expression semantics shared by
@@ -437,6 +482,11 @@ def exec_correspondence(ctx, exe, items):
         st["c-equal"] += 1
         if guard:
             st["guard:theorem-instance" if same_lines(cl, ml) else "guard:prediction-mismatch"] += 1
+            ks = _kinds(p["pre"], _kinds(p["main"], set()))
+            if "continue" in ks:
+                st["guard:with-continue"] += 1          # inside the proved guard since `continue` has a constructor
+            if "swap" in ks or _has_tuple_assignment(p):
+                st["guard:with-tuple-assignment-through-temporaries"] += 1
     return {"exec_cases": len(jobs), "exec_status": dict(st), "inside_proved_guard": inside}
 
 
@@ -637,5 +687,5 @@ def run_unit(ctx: C.Ctx):
         "evaluations": len(progs) + len(lsrcs) + ir["ir_cases"] + ir.get("exec_cases", 0), "list_programs_by_status": dict(lstats), "programs_by_status": dict(stats), "ir_correspondence": ir,
         "distinct_nontrivial": len({s for s, r in zip(srcs, res) if r["status"] == "equal" and len(r["py"]) >= 3}),
         "samples": [srcs[0][len(progen.HEADER):], srcs[-1][len(progen.HEADER):]],
-        "rule": "the witnesses of repaired defects first (F-C01-continue-dropped), then 19 hand-written boundary programs (break guard, nested break, empty range, elif chain, shadowing loop variable, tuple declarations reading re-assigned variables, promotion out of for/while/if; `continue` in for-range, in while, under nested ifs, in an else arm, in the inner of two loops, in the main loop body directly / under nested ifs / inside a for loop of the main loop, unconditional with dead code after it, misplaced = rejected) + seeded programs from harness/progen.py over 8 feature sets (core ints; +floats; +helper functions; +tuple/swap; all; first assignment inside branches; `continue`; `continue` + all), N in 0..3 loop passes, scripted analog/digital inputs (half of them constant per pin); every program: firmware trace vs CPython trace (oracle); programs without helper functions: IR of Lang.Transl.transl vs IR of the real parser; those with constant inputs additionally: extracted pexec vs CPython trace and extracted transl+cexec vs firmware trace (Lang.StmtExec), and the number of them inside the guard of C01_stmt_preserve_partial is recorded; non-trivial = both sides ran and the common trace has >= 3 events",
+        "rule": "the witnesses of repaired defects first (F-C01-continue-dropped), then 20 hand-written boundary programs (break guard, nested break, empty range, elif chain, shadowing loop variable, tuple declarations reading re-assigned variables, tuple assignments to declared names - float swap, rotation, Fibonacci step, swaps in the main loop -, promotion out of for/while/if; `continue` in for-range, in while, under nested ifs, in an else arm, in the inner of two loops, in the main loop body directly / under nested ifs / inside a for loop of the main loop, unconditional with dead code after it, misplaced = rejected) + seeded programs from harness/progen.py over 8 feature sets (core ints; +floats; +helper functions; +tuple/swap; all; first assignment inside branches; `continue`; `continue` + all), N in 0..3 loop passes, scripted analog/digital inputs (half of them constant per pin); every program: firmware trace vs CPython trace (oracle); programs without helper functions: IR of Lang.Transl.transl vs IR of the real parser; those with constant inputs additionally: extracted pexec vs CPython trace and extracted transl+cexec vs firmware trace (Lang.StmtExec), and the number of them inside the guard of C01_stmt_preserve_partial is recorded; non-trivial = both sides ran and the common trace has >= 3 events",
     }
